@@ -1105,6 +1105,8 @@ type walkShape struct {
 	cur      ssa.Value     // the node the tail works on: walk's receiver (recursive) or the outer loop's phi
 	outer    *ssa.BasicBlock
 	scanCall *ssa.Call // loop+helper: the call of scan in walk
+	scanCalls []*ssa.Call // loop+helper: every call of scan in walk (two in the for-clause spelling)
+	next      ssa.Value   // loop+helper: the candidate tested against nil (the call, or the phi of the two calls)
 }
 
 func getWalkShape(c *core.Ctx) *walkShape {
@@ -1186,6 +1188,41 @@ func getWalkShape(c *core.Ctx) *walkShape {
 			g := call.Parent()
 			if ph, ok := call.Call.Args[0].(*ssa.Phi); ok && cm.isNodePtr(ph.Type()) && loopPhi(g, ph, func(v ssa.Value) bool { return v == ssa.Value(call) }) {
 				w.form, w.walk, w.cur, w.outer, w.scanCall = "loop+helper", g, ph, ph.Block(), call
+				w.scanCalls, w.next = []*ssa.Call{call}, call
+			}
+		}
+		if len(callers) == 2 && callers[0].Parent() == callers[1].Parent() {
+			// for c := scan(m); c != nil; c = scan(m) { m = c }: the candidate is a phi of the two calls, the
+			// current node a phi of the receiver and the candidate
+			g := callers[0].Parent()
+			for _, pair := range [][2]*ssa.Call{{callers[0], callers[1]}, {callers[1], callers[0]}} {
+				c0, c1 := pair[0], pair[1]
+				cand, ok := c1.Call.Args[0].(*ssa.Phi)
+				if !ok || c0.Call.Args[0] != ssa.Value(g.Params[0]) {
+					continue
+				}
+				h := cand.Block()
+				okCand := len(cand.Edges) == len(h.Preds)
+				for k, pr := range h.Preds {
+					if h.Dominates(pr) {
+						okCand = okCand && cand.Edges[k] == ssa.Value(c1)
+					} else {
+						okCand = okCand && cand.Edges[k] == ssa.Value(c0)
+					}
+				}
+				if !okCand {
+					continue
+				}
+				for _, in := range h.Instrs {
+					cur, isPhi := in.(*ssa.Phi)
+					if !isPhi {
+						break
+					}
+					if cur != cand && cm.isNodePtr(cur.Type()) && loopPhi(g, cur, func(v ssa.Value) bool { return v == ssa.Value(cand) }) {
+						w.form, w.walk, w.cur, w.outer, w.scanCall = "loop+helper", g, cur, h, c1
+						w.scanCalls, w.next = []*ssa.Call{c0, c1}, cand
+					}
+				}
 			}
 		}
 	}
